@@ -73,6 +73,9 @@ type Ctx struct {
 
 	busy []atomic.Int64 // per worker: unix nano when the current impl call started (0 = idle)
 	cur  []atomic.Value // per worker: description of current case
+	// per worker: a small file holding the case being run, so that a fatal error of the
+	// implementation (stack overflow, concurrent map write: not recoverable) can be traced to its input
+	crash []*os.File
 }
 
 func NewCtx(prop, tier string, seed uint64, root string, pool *drv.Pool, known []Finding) *Ctx {
@@ -81,6 +84,12 @@ func NewCtx(prop, tier string, seed uint64, root string, pool *drv.Pool, known [
 		distinct: map[[20]byte]struct{}{}, Dist: map[string]int64{}, vioSeen: map[string]bool{}}
 	c.busy = make([]atomic.Int64, pool.N()+1)
 	c.cur = make([]atomic.Value, pool.N()+1)
+	if dir := os.Getenv("VERIF_CRASHDIR"); dir != "" {
+		c.crash = make([]*os.File, pool.N()+1)
+		for w := range c.crash {
+			c.crash[w], _ = os.Create(fmt.Sprintf("%s/w%d", dir, w))
+		}
+	}
 	go c.watchdog()
 	return c
 }
@@ -120,7 +129,11 @@ func (c *Ctx) Impl(w int, op string, args ...[]byte) (out string) {
 	if f == nil {
 		return "NO-IMPL-OP " + op
 	}
-	c.cur[w].Store(op + " " + hexArgs(args))
+	desc := op + " " + hexArgs(args)
+	c.cur[w].Store(desc)
+	if c.crash != nil && c.crash[w] != nil && len(desc) < 1<<20 {
+		c.crash[w].WriteAt([]byte(fmt.Sprintf("%010d %s", len(desc), desc)), 0)
+	}
 	c.busy[w].Store(time.Now().UnixNano())
 	defer func() {
 		c.busy[w].Store(0)
